@@ -125,16 +125,44 @@ Qed.
 Lemma Inv_core_split s : Inv_core s <-> Inv_sk s /\ Inv_cons s /\ Inv_escrow s.
 Proof. unfold Inv_core, Inv_sk. tauto. Qed.
 
+(* stored order quantities have no positive exponent.  Together with Inv_bound this is what makes
+   BeginBlock total: apd refuses to add operands whose exponents differ by more than 100000, and
+   unescrowCredits adds the order quantity to the seller's tradable balance (InvMarketHalt.v shows the
+   failure for a quantity stored as "1e100000").  Sell / Update / fillOrder store [to_string d], whose
+   re-parse has exponent <= 0. *)
+Definition qty_ok (o : sell_order) : Prop := exists d, parse (so_quantity o) = Ok d /\ dexp d <= 0.
+Definition Inv_qty (s : state) : Prop := forall id o, sell_orders s !! id = Some o -> qty_ok o.
+
+Lemma Inv_qty_transfer s s' :
+  (forall id o', sell_orders s' !! id = Some o' ->
+     qty_ok o' \/ exists id0 o, sell_orders s !! id0 = Some o /\ so_quantity o' = so_quantity o) ->
+  Inv_qty s -> Inv_qty s'.
+Proof.
+  intros Ho Hi id o' Hid. destruct (Ho id o' Hid) as [Hq|(id0 & o & H0 & Heq)]; [exact Hq|].
+  unfold qty_ok. rewrite Heq. eapply Hi. exact H0.
+Qed.
+
+Lemma Inv_qty_sub s s' :
+  (forall id o, sell_orders s' !! id = Some o -> sell_orders s !! id = Some o) -> Inv_qty s -> Inv_qty s'.
+Proof. intros Ho Hi id o Hid. eapply Hi. apply Ho. exact Hid. Qed.
+
+(* handlers outside the marketplace do not write sell orders *)
+Lemma Inv_qty_ext s s' : sell_orders s' = sell_orders s -> Inv_qty s -> Inv_qty s'.
+Proof. intros H Hi id o. rewrite H. apply Hi. Qed.
+
+Lemma Inv_bound_ext s s' : supplies s' = supplies s -> Inv_bound s -> Inv_bound s'.
+Proof. intros H Hi k su. rewrite H. apply Hi. Qed.
+
 (* what every successful marketplace step establishes from Inv_core and Inv_bound *)
 Definition step_ok (s s' : state) : Prop :=
-  Inv_core s' /\ mframe s s' /\ (Inv_orders s -> Inv_orders s').
+  Inv_core s' /\ mframe s s' /\ (Inv_orders s -> Inv_orders s') /\ (Inv_qty s -> Inv_qty s').
 
 Lemma step_ok_refl s : Inv_core s -> step_ok s s.
 Proof. intros H. split; [exact H|]. split; [apply mframe_refl | tauto]. Qed.
 
 Lemma step_ok_trans s1 s2 s3 : step_ok s1 s2 -> step_ok s2 s3 -> step_ok s1 s3.
 Proof.
-  intros (A1 & A2 & A3) (B1 & B2 & B3). split; [exact B1|]. split; [eapply mframe_trans; eassumption | tauto].
+  intros (A1 & A2 & A3 & A4) (B1 & B2 & B3 & B4). split; [exact B1|]. split; [eapply mframe_trans; eassumption | tauto].
 Qed.
 
 Lemma lfold_step {B} (f : state -> B -> lres state) (l : list B) s s' :
